@@ -10,6 +10,7 @@ R16.2 REPRESENTATION-SWITCH  every switch over `Representation` has both cases
 R16.3 SPECIALISATION-PARITY  the members explicitly specialised for
       Linear_Expression_Impl<Dense_Row> and <Sparse_Row> are the same set.
 """
+import re
 from pplv import facts as F
 from pplv import flow
 from pplv.shape import canon, first_diff
@@ -372,6 +373,186 @@ def r16_6(ctx):
     ctx.floor(rid, n, 2, "call sites of members asserting a no-alias precondition")
 
 
+def _changed_in(f, parts):
+    """Names (locals / parameters, and member paths as text) that the given loop parts may change."""
+    m = set()
+    for part in parts:
+        if part is None:
+            continue
+        for y in f.walk(part):
+            t = None
+            if y["k"] == "assign" and y.get("c"):
+                t = f.deref(y["c"][0])
+            elif y["k"] in ("unop", "ocall", "binop") and y.get("op") in ("++", "--", "+=", "-=", "=", "*=", "/=", "%=", "<<=", ">>=") and y.get("c"):
+                t = f.deref(y["c"][0])
+            if t is not None and t["k"] not in ("index", "subscript"):      # writing X[e] changes neither X's address nor e
+                if t["k"] == "member":
+                    m.add(f.text(t).replace(" ", ""))
+                for z in f.walk(t):
+                    if z["k"] == "ref" and z.get("n"):
+                        m.add(z["n"])
+            if y["k"] == "var":
+                m.add(y["n"])
+            if y["k"] in ("mcall", "call"):
+                o = f.call_obj(y) if y["k"] == "mcall" else None
+                if o is not None and not y.get("cconst"):
+                    if o["k"] == "member":
+                        m.add(f.text(o).replace(" ", ""))
+                    for z in f.walk(o):
+                        if z["k"] == "ref" and z.get("n"):
+                            m.add(z["n"])
+                for a, mm in zip(f.call_args(y), y.get("pm", "")):
+                    if mm in "rp" and a is not None:
+                        for z in f.walk(a):
+                            if z["k"] == "ref" and z.get("n"):
+                                m.add(z["n"])
+                            if z["k"] == "member":
+                                m.add(f.text(z).replace(" ", ""))
+    return m
+
+
+def r16_7(ctx):
+    from rules.c14 import units_alloc
+    rid = "R16.7"
+    ctx.rule(rid, "loops move the slot they write: in a `for` loop (innermost around the statement) an element write `X[e] = ..`, a compound assignment to `X[e]` or a placement-new at `&X[e]` uses an index e that mentions something the loop changes (the induction variable, an iterator advanced in the body, a member incremented by the loop) — an index built only from loop-invariant values rewrites one slot on every iteration (and, with e == size, a slot past the end) while the elements the loop is meant to fill keep their old values; judged on all row, matrix and linear-expression code (dense and sparse representations must end up with the same coefficients)")
+    fx = ctx.extract(units_alloc())
+    n = 0
+    seen = set()
+    for f in fx.functions:
+        if (f.relfile, f.line) in seen or not f.relfile.startswith("src/"):
+            continue
+        seen.add((f.relfile, f.line))
+        for lp in f.walk():
+            if lp["k"] != "for" or len(lp.get("c", ())) != 4:
+                continue
+            body, inc, cond, init = f.deref(lp["c"][3]), f.deref(lp["c"][2]), f.deref(lp["c"][1]), f.deref(lp["c"][0])
+            if body is None:
+                continue
+            changed = None
+            for a in f.walk(body):
+                tgt = None
+                if a["k"] == "assign" and a.get("c"):
+                    tgt = f.deref(a["c"][0])
+                elif a["k"] == "ocall" and a.get("op") in ("=", "+=", "-=", "*=", "/=") and len(a.get("c", ())) >= 2:
+                    tgt = f.deref(a["c"][0])
+                elif a["k"] == "new" and a.get("placement"):
+                    tgt = a
+                if tgt is None:
+                    continue
+                inner = [x for x in f.ancestors(a) if x["k"] in ("for", "while", "do")]
+                if not inner or inner[0]["i"] != lp["i"]:
+                    continue
+                subs = [x for x in f.walk(tgt) if x["k"] in ("index", "subscript") or (x["k"] == "ocall" and x.get("op") == "[]")]
+                if tgt is a:
+                    # placement new: only the address expression
+                    subs = [x for x in subs if not any(y["k"] in ("construct",) and f.within(x, y) for y in f.walk(a))]
+                for sx in subs[:1]:
+                    cs = [f.deref(c) for c in sx.get("c", ())]
+                    if len(cs) < 2 or cs[-1] is None:
+                        continue
+                    idx, base = cs[-1], cs[-2]
+                    names = set(z["n"] for z in f.walk(idx) if z["k"] == "ref" and z.get("n")) | set(f.text(z).replace(" ", "") for z in f.walk(idx) if z["k"] == "member")
+                    if not names:
+                        continue      # a literal index
+                    bnames = set(z["n"] for z in f.walk(base) if z["k"] == "ref" and z.get("n")) if base is not None else set()
+                    if changed is None:
+                        changed = _changed_in(f, (body, inc, cond))
+                    n += 1
+                    inst = "%s::%s `%s` in the loop at line %s" % (f.clsn or "", f.name, f.text(sx)[:50], lp.get("l"))
+                    if (names & changed) or (bnames & changed):
+                        ctx.ok(rid, inst, f.where(a))
+                    else:
+                        ctx.violation(rid, inst, f.where(a), "the index `%s` mentions nothing that changes in the loop (changed: %s): every iteration writes the same slot" % (f.text(idx), ", ".join(sorted(changed))[:80]))
+    ctx.floor(rid, n, 130, "element writes inside for loops")
+
+
+def r16_8(ctx):
+    rid = "R16.8"
+    ctx.rule(rid, "truncating copies clamp the source size: the four sibling constructors Dense_Row / Sparse_Row (const Dense_Row|Sparse_Row& src, dimension_type sz, dimension_type capacity) build a row of size sz from a source of any size; every use of the source's own size (`src.size()`) in such a constructor is clamped by sz — an argument of std::min together with sz, or compared with sz — so no coefficient at an index >= sz is copied. A sparse row that stores entries beyond its size prints and compares differently from the dense row built from the same arguments")
+    fx = ctx.extract([F.lib_unit("Dense_Row.cc"), F.lib_unit("Sparse_Row.cc"),
+                      F.driver_unit("all_headers.cc", file_re=r"(Dense_Row|Sparse_Row)_inlines\.hh")])
+    n = 0
+    seen = set()
+    for f in fx.functions:
+        if f.kind != "ctor" or f.clsn not in ("Dense_Row", "Sparse_Row") or len(f.params) != 3 or (f.relfile, f.line) in seen:
+            continue
+        src, szp = f.params[0], f.params[1]
+        if not re.search(r"(Dense_Row|Sparse_Row) &", src["t"]) or "dimension_type" not in szp["t"] and "unsigned long" not in szp["t"]:
+            continue
+        seen.add((f.relfile, f.line))
+        uses = []
+        roots = [f.ast] + [i_.get("e") for i_ in (f.j.get("inits") or []) if isinstance(i_.get("e"), dict)]
+        for root in roots:
+            for c in f.walk(root):
+                if c["k"] == "mcall" and f.call_name(c) == "size" and f.call_obj(c) is not None and f.call_obj(c)["k"] == "ref" and f.call_obj(c).get("n") == src["n"]:
+                    uses.append(c)
+        n += 1
+        inst = "%s(const %s, %s, capacity)" % (f.clsn, src["t"].replace("Parma_Polyhedra_Library::", ""), szp["n"])
+        bad = []
+        for c in uses:
+            ok = False
+            for a in f.ancestors(c):
+                if a["k"] in ("call", "mcall") and f.call_name(a) in ("min", "max") and any(y["k"] == "ref" and y.get("n") == szp["n"] for y in f.walk(a)):
+                    ok = True
+                    break
+                if a["k"] in ("binop", "ocall") and a.get("op") in ("<", ">", "<=", ">=", "==", "!=") and any(y["k"] == "ref" and y.get("n") == szp["n"] for y in f.walk(a)):
+                    ok = True
+                    break
+            if not ok:
+                bad.append(c)
+        if not bad:
+            ctx.ok(rid, inst, f.where())
+        else:
+            ctx.violation(rid, inst, f.where(bad[0]), "`%s.size()` bounds what is copied without being clamped by `%s`: a source larger than the requested size leaves coefficients stored at indexes >= %s" % (src["n"], szp["n"], szp["n"]))
+    ctx.floor(rid, n, 4, "truncating row constructors")
+
+
+def r16_9(ctx):
+    rid = "R16.9"
+    ctx.rule(rid, "no stored zeros, representation-generic code: in the members of Linear_Expression_Impl<Row> templated on a second row type Row2, a value read through an iterator over the Row2 operand (which may be dense, so may be zero) is stored into the receiver's own row — `row.insert(.., *j)`, `*i = *j` — only on the non-zero edge of a test of that value (`*j != 0` / `*j == 0`); a sparse receiver that stores a zero visits it as a coefficient, fails OK() and compares different from the dense receiver given the same arguments")
+    fx = ctx.extract([F.driver_unit("all_headers.cc", file_re=r"Linear_Expression_Impl_templates\.hh")])
+    n = 0
+    seen = set()
+    for f in fx.functions:
+        if not f.flag("pattern") or (f.relfile, f.line) in seen:
+            continue
+        seen.add((f.relfile, f.line))
+        its = set(v["n"] for v in f.walk() if v["k"] == "var" and "Row2" in v.get("t", "") and "iterator" in v.get("t", ""))
+        if not its:
+            continue
+        for c in f.walk():
+            val = None
+            if c["k"] in ("mcall", "call") and f.call_name(c) == "insert":
+                for a in f.call_args(c):
+                    if a is not None and "index" not in f.text(a) and any(x["k"] == "ref" and x.get("n") in its for x in f.walk(a)):
+                        val = a
+            elif c["k"] in ("assign", "ocall") and (c["k"] == "assign" or c.get("op") == "="):
+                cs = [f.deref(x) for x in c["c"]][-2:]
+                if len(cs) == 2 and cs[1] is not None and cs[0] is not None and "*" in f.text(cs[0]) and any(x["k"] == "ref" and x.get("n") in its for x in f.walk(cs[1])):
+                    val = cs[1]
+            if val is None:
+                continue
+            it = next(x["n"] for x in f.walk(val) if x["k"] == "ref" and x.get("n") in its)
+            n += 1
+            inst = "%s `%s` (line %s)" % (f.name, f.text(c)[:50], c.get("l"))
+            guarded = False
+            child = c
+            for a in f.ancestors(c):
+                if a["k"] == "if":
+                    ct = f.text(f.deref(a["c"][2])).replace(" ", "").replace("(", "").replace(")", "")
+                    then, els = f.deref(a["c"][3]), f.deref(a["c"][4]) if len(a["c"]) > 4 else None
+                    if ct in ("*%s!=0" % it, "0!=*%s" % it) and f.within(child, then):
+                        guarded = True
+                    if ct in ("*%s==0" % it, "0==*%s" % it) and els is not None and f.within(child, els):
+                        guarded = True
+                child = a
+            if guarded:
+                ctx.ok(rid, inst, f.where(c))
+            else:
+                ctx.violation(rid, inst, f.where(c), "`*%s` comes from the other operand's row, which stores zeros when it is dense; it is stored into the receiver's row without a test against zero" % it)
+    ctx.floor(rid, n, 3, "stores of other-representation values")
+
+
 def run(ctx):
     ctx.explanation = ("C16 structural clauses: Dense/Sparse dispatch arms, Representation switches and explicit "
                        "specialisations agree (necessary for representation independence); decides the dispatch clause, "
@@ -384,6 +565,9 @@ def run(ctx):
     r16_3(ctx, fx)
     r16_4(ctx)
     r16_6(ctx)
+    r16_7(ctx)
+    r16_8(ctx)
+    r16_9(ctx)
     from rules import dirty
     fxd = ctx.extract([F.lib_unit(n) for n in ("Linear_Expression.cc", "Linear_Expression_Impl.cc", "Sparse_Row.cc", "Dense_Row.cc", "Scalar_Products.cc", "CO_Tree.cc")]
                       + [F.driver_unit("domains.cc", file_re=r"(Linear_Expression_Impl_templates|Linear_Expression_inlines|Linear_System_templates|Matrix_templates|Sparse_Row_templates)\.hh")])
